@@ -59,7 +59,19 @@ func unsupp(format string, a ...interface{}) {
 }
 
 func typeKey(t types.Type) string {
-	return types.TypeString(t, nil)
+	if b, ok := t.(*types.Basic); ok {
+		switch b.Kind() {
+		case types.Uint8:
+			return "uint8"
+		case types.Int32:
+			return "int32"
+		}
+	}
+	s := types.TypeString(t, nil)
+	if strings.Contains(s, "byte") {
+		s = strings.ReplaceAll(s, "[]byte", "[]uint8")
+	}
+	return s
 }
 
 func deref(t types.Type) types.Type {
